@@ -49,10 +49,17 @@ unsafe impl GlobalAlloc for TrackAlloc {
         unsafe { System.alloc_zeroed(l) }
     }
     unsafe fn realloc(&self, p: *mut u8, l: Layout, new: usize) -> *mut u8 {
+        // never grow in place: whether a reallocation moves its contents must not depend on the
+        // state of the heap (a collection that reallocates pinned storage is then caught every time)
         note_alloc();
-        let q = unsafe { System.realloc(p, l, new) };
-        if !q.is_null() && new > l.size() && !cfg!(miri) {
-            unsafe { std::ptr::write_bytes(q.add(l.size()), 0xA5, new - l.size()) };
+        let nl = unsafe { Layout::from_size_align_unchecked(new, l.align()) };
+        let q = unsafe { System.alloc(nl) };
+        if !q.is_null() {
+            if new > l.size() && !cfg!(miri) {
+                unsafe { std::ptr::write_bytes(q.add(l.size()), 0xA5, new - l.size()) };
+            }
+            unsafe { std::ptr::copy_nonoverlapping(p, q, l.size().min(new)) };
+            unsafe { System.dealloc(p, l) };
         }
         q
     }
